@@ -27,6 +27,7 @@ from engine import dump, traces
 LIMIT = 3           # seconds per observed call ("instead of looping"); a normal call takes milliseconds
 MAX_TIMEOUTS = 3    # per worker process: afterwards the worker stops observing (a looping mutant would take hours)
 TIMEOUTS = [0]
+VEC_ID = 10 ** 6    # id offset of the second-component record of a vector-valued case
 NS = 2              # samples per enumerated case (MC_DepResolve cfg files)
 
 
@@ -53,8 +54,20 @@ class Rec(object):
 DEFAULT_CONSTS = {'pi': (math.pi, 314), 'e': (math.e, 271), 'i': (1j, 1001), 'j': (1j, 1002)}
 
 
-def to_int(v):
-    """observed value -> (int, ok)"""
+def same(a, b, tol=1e-9):
+    """numeric equality of two observed values (scalars or arrays)"""
+    try:
+        import numpy as np
+        x, y = np.asarray(a, dtype=complex), np.asarray(b, dtype=complex)
+        return x.shape == y.shape and bool(np.all(np.abs(x - y) <= tol))
+    except Exception:
+        return False
+
+
+def to_int(v, comp=0):
+    """observed value -> (int, ok); of a 2-vector the component comp is taken"""
+    if getattr(v, 'shape', None) == (2,):
+        v = v[comp]
     try:
         z = complex(v)
     except Exception:  # arrays, strings ...
@@ -67,26 +80,22 @@ def to_int(v):
     return int(r), True
 
 
-def encode_value(name, v, codes):
+def encode_value(name, v, codes, comp=0):
     """codes: name -> (concrete value, integer code) for constants whose value is not a small integer"""
     if name in codes:
         conc, code = codes[name]
-        try:
-            same = abs(complex(v) - complex(conc)) <= 1e-12
-        except Exception:
-            same = False
-        if same:
+        if same(v, conc, 1e-12):
             return code, True
         # a shadowing variable holds an ordinary integer
-    return to_int(v)
+    return to_int(v, comp)
 
 
-def encode_samples(samples, codes):
+def encode_samples(samples, codes, comp=0):
     out, bad = [], ''
     for s in samples:
         row = []
         for n in sorted(s):
-            iv, ok = encode_value(n, s[n], codes)
+            iv, ok = encode_value(n, s[n], codes, comp)
             if not ok:
                 bad = bad or 'value-not-an-integer:%s' % n
             row.append({'n': n, 'v': iv})
@@ -110,15 +119,22 @@ def make_sampler_table(cfg, style, log):
     from engine.fixtures import ScriptedSampler
     from mitxgraders import DependentSampler
     table, funcs = {}, {}
+    vec = cfg.get('vec')                   # second component: every value is a 2-vector, formulas [1, 1] + sum
     entries = [(v['n'], v) for v in cfg['vars']] + [(h['h'], h) for h in cfg.get('heads', [])]
     for idx, (name, e) in enumerate(entries):
         if name in table:
             continue                       # a head that is also a plain variable: one sample_from entry
         if e['k'] == 'ind':
-            table[name] = ScriptedSampler(script=list(e['draws']))
+            if vec:
+                from mitxgraders import MathArray
+                table[name] = ScriptedSampler(script=[MathArray([a, b]) for a, b in zip(e['draws'], vec['draws'][name])])
+            else:
+                table[name] = ScriptedSampler(script=list(e['draws']))
             continue
         deps = sorted(e['deps'])
-        if style == 'tap':
+        if vec:
+            formula = ' + '.join(['[1, 1]'] + deps) if idx % 2 else ' + '.join(deps + ['[1, 1]'])
+        elif style == 'tap':
             fname = 'tp' + 'abcdefghijklmnopqrstuvwxyz'[idx % 26] + str(idx // 26 if idx >= 26 else '')
             args = deps if deps else ['0']
             funcs[fname] = Rec(len(args), log, ('tap', name, tuple(deps)), lambda a: 1 + sum(a))
@@ -151,15 +167,37 @@ def split_orders(log, cfg, samples):
         chunk = taps[j * per:(j + 1) * per]
         orders.append([c[0] for c in chunk])
         for name, deps, args in chunk:
-            if deps and any(abs(complex(a) - complex(samples[j].get(d, float('nan')))) > 1e-9 for d, a in zip(deps, args)
-                            if not isinstance(samples[j].get(d), str)):
+            if deps and any(not same(a, samples[j].get(d, float('nan'))) for d, a in zip(deps, args)):
                 bad = 'formula-saw-values-of-another-sample:%s' % name
     return orders, bad
 
 
 # ---------------------------------------------------------------- bindings
 def base_obs():
-    return {'res': 'ok', 'diag': 'none', 'names': [], 'samples': [], 'orders': [], 'has_order': False, 'bad': ''}
+    return {'res': 'ok', 'diag': 'none', 'names': [], 'samples': [], 'samples1': [], 'orders': [], 'has_order': False,
+            'bad': ''}
+
+
+def constants_of(cfg, names=None):
+    """constant dictionary (2-vectors in vector mode)"""
+    vec = cfg.get('vec')
+    out = {}
+    for q in cfg['consts']:
+        if names is not None and q['n'] not in names:
+            continue
+        if vec:
+            from mitxgraders import MathArray
+            out[q['n']] = MathArray([q['v'], vec['consts'][q['n']]])
+        else:
+            out[q['n']] = q['v']
+    return out
+
+
+def set_samples(obs, cfg, samples, codes):
+    obs['samples'], obs['bad'] = encode_samples(samples, codes, 0)
+    if cfg.get('vec'):
+        obs['samples1'], bad = encode_samples(samples, codes, 1)
+        obs['bad'] = obs['bad'] or bad
 
 
 def guarded(fn):
@@ -205,7 +243,7 @@ def observe_direct(cfg, style):
         table, funcs = make_sampler_table(cfg, style, log)
     except Exception as e:  # noqa
         return classify_exception(obs, e)
-    constants = {q['n']: q['v'] for q in cfg['consts']}
+    constants = constants_of(cfg)
     symbols = [v['n'] for v in cfg['vars']]
     samples, e = guarded(lambda: gen_symbols_samples(symbols, cfg['ns'], table, funcs, {}, constants))
     if e is not None:
@@ -213,7 +251,7 @@ def observe_direct(cfg, style):
     if not isinstance(samples, list) or not all(isinstance(s, dict) for s in samples):
         obs['res'], obs['bad'] = 'other', 'result-is-not-a-list-of-dicts'
         return obs
-    obs['samples'], obs['bad'] = encode_samples(samples, {})
+    set_samples(obs, cfg, samples, {})
     if style == 'tap':
         orders, bad = split_orders(log, cfg, samples)
         if orders is not None:
@@ -225,7 +263,7 @@ def observe_direct(cfg, style):
 def grader_config(cfg, style, log):
     """cfg -> keyword arguments of a FormulaGrader that uses every name of the configuration"""
     table, funcs = make_sampler_table(cfg, style, log)
-    user_consts = {q['n']: q['v'] for q in cfg['consts'] if q['n'] not in DEFAULT_CONSTS}
+    user_consts = constants_of(cfg, [q['n'] for q in cfg['consts'] if q['n'] not in DEFAULT_CONSTS])
     names = [v['n'] for v in cfg['vars']] + sorted(user_consts)
     names += [n for n in sorted(DEFAULT_CONSTS) if n not in names]
     occ = [o['key'] for o in cfg.get('occ', [])]
@@ -253,11 +291,7 @@ def check_probes(log, samples):
             for n, a in zip(names, args):
                 if n not in samples[j]:
                     return 'grading-used-a-value-missing-from-the-sample:%s' % n
-                try:
-                    same = abs(complex(a) - complex(samples[j][n])) <= 1e-9
-                except Exception:
-                    same = False
-                if not same:
+                if not same(a, samples[j][n]):
                     return 'grading-used-another-value:%s' % n
     return ''
 
@@ -297,7 +331,7 @@ def observe_grader(cfg, style):
             obs['res'], obs['bad'] = 'other', 'no-sample-observable'
             return obs
     codes = {n: DEFAULT_CONSTS[n] for n in DEFAULT_CONSTS}
-    obs['samples'], obs['bad'] = encode_samples(samples, codes)
+    set_samples(obs, cfg, samples, codes)
     obs['bad'] = obs['bad'] or check_probes(log, samples)
     if style == 'tap':
         orders, bad = split_orders(log, cfg, samples)
@@ -402,7 +436,7 @@ def obs_value_abstract(name, v, codes):
 
 def compare(alts, obs, m, codes):
     """(verdict clause or '', matching alternative).  alts: the outcomes the spec allows (abstract names)."""
-    if obs['bad']:
+    if obs['bad'] and obs['res'] == 'other':
         return obs['bad'], None
     clause = ''
     for alt in alts:
@@ -428,7 +462,7 @@ def compare(alts, obs, m, codes):
                 elif got[cn] != av:
                     why = why or 'wrong-value'
         if not why:
-            return '', alt
+            return (obs['bad'], None) if obs['bad'] else ('', alt)
         clause = clause or why
     return clause, None
 
@@ -551,6 +585,8 @@ def cfg_summary(cfg):
         s += ' | numbered: ' + ','.join(h['h'] for h in cfg['heads'])
     if cfg.get('occ'):
         s += ' | in expressions: ' + ','.join(o['key'] for o in cfg['occ'])
+    if cfg.get('vec'):
+        s += ' | 2-vectors'
     return s
 
 
@@ -697,9 +733,28 @@ def rand_case(rng, rid, big):
             # sibling_1 is appended by the grader after the declared variables
             cfg['vars'] = [v for v in cfg['vars'] if v['n'] != 'sibling_1'] + \
                           [v for v in cfg['vars'] if v['n'] == 'sibling_1']
+    if binding in ('direct', 'grader') and rng.random() < 0.15:
+        # vector mode: every variable and user constant is a 2-vector; the second component has its own draws
+        style = 'plain'
+        cfg['vec'] = {'draws': {}, 'consts': {}}
+        for e in cfg['vars'] + [dict(h, n=h['h']) for h in cfg['heads']]:
+            if e['k'] == 'ind' and e['n'] not in cfg['vec']['draws']:
+                cfg['vec']['draws'][e['n']] = [rng.randint(-50, 50) for _ in e['draws']]
+        for q in cfg['consts']:
+            cfg['vec']['consts'][q['n']] = q['v'] if q['n'] in DEFAULT_CONSTS else rng.randint(-9, 9)
     dep_heads = sum(1 for h in cfg['heads'] if h['k'] == 'dep')
     return {'id': rid, 'bind': binding, 'style': style, 'shape': shape, 'variant': variant, 'cfg': cfg,
             'loop_order': dep_heads == 0}
+
+
+def second_component(case, obs):
+    """vector mode: the record of the second component (same graph, its own draws and constants)"""
+    cfg = dict(case['cfg'])
+    vec = cfg.pop('vec')
+    cfg['vars'] = [dict(v, draws=vec['draws'][v['n']]) if v['k'] == 'ind' else v for v in cfg['vars']]
+    cfg['heads'] = [dict(h, draws=vec['draws'][h['h']]) if h['k'] == 'ind' else h for h in cfg['heads']]
+    cfg['consts'] = [{'n': q['n'], 'v': vec['consts'][q['n']]} for q in cfg['consts']]
+    return to_record(dict(case, cfg=cfg, id=case['id'] + VEC_ID), dict(obs, samples=obs['samples1']))
 
 
 def to_record(case, obs):
@@ -720,6 +775,8 @@ def observe_chunk(cases, extra):
             break
         obs = observe(case['cfg'], case['bind'], case['style'])
         recs.append(to_record(case, obs))
+        if case['cfg'].get('vec'):
+            recs.append(second_component(case, obs))
     return recs
 
 
@@ -794,14 +851,14 @@ def run_traces(ctx, n):
     ctx.evaluations += len(recs)
     bycase = {c['id']: c for c in cases}
     byrec = {r['id']: r for r in recs}
-    cases = [bycase[r['id']] for r in recs]          # (workers stop early after repeated timeouts)
+    cases = [bycase[r['id'] % VEC_ID] for r in recs]  # (two records per vector case; workers stop after timeouts)
     for c, r in zip(cases, recs):
         ctx.nontrivial.add(('trace', c['bind'], c['shape'], c['variant'], r['res'], len(c['cfg']['vars']) > 4,
-                            bool(c['cfg']['heads'])))
+                            bool(c['cfg']['heads']), bool(c['cfg'].get('vec'))))
     for r in recs[:2]:
         ctx.sample({'trace_record': r}, limit=6)
     for i, clause in sorted(rej.items()):
-        c, r = bycase[i], byrec[i]
+        c, r = bycase[i % VEC_ID], byrec[i]
         if clause.startswith('drift:'):
             ctx.note_drift('%s %s: %s (code: %s %s %s)' % (c['bind'], cfg_summary(c['cfg']), clause[6:], r['diag'],
                                                           r['names'], r['orders'][:1]))
@@ -827,7 +884,7 @@ def run(ctx):
                            'random_variables_max': 8}
     ctx.assumptions += [
         'dependent formulas are 1 + (sum of dependencies) over integer draws (exact in floating point)',
-        'vector-valued variables are not generated',
+        'vector-valued variables: 2-vectors with formulas [1, 1] + (sum), judged component by component',
         'numbered-variable indices that are decimal numerals but not canonical integers (05, -0) are accepted either way',
         'numbered-variable instances that occur only inside DependentSampler formulas are not generated',
         'exceptions raised after the samples exist (evaluation of the expressions) are outside this property',
